@@ -14,9 +14,44 @@ use crate::value::Value;
 #[serde(from = "BoxedRep", into = "BoxedRep")]
 pub struct Boxed(pub Value);
 
-#[derive(Serialize, Deserialize)]
+#[derive(Serialize)]
 struct BoxedRep {
     b: Value,
+}
+
+// A box is only ever written as `{"b": value}`. The derived reader would also
+// take the one-element sequence `[value]`, which makes the one-entry map form
+// `[[1], keys, [box]]` of a box array read as a list of three boxes.
+impl<'de> Deserialize<'de> for BoxedRep {
+    fn deserialize<D: Deserializer<'de>>(deserializer: D) -> Result<Self, D::Error> {
+        #[derive(Deserialize)]
+        #[serde(field_identifier, rename_all = "lowercase")]
+        enum Field {
+            B,
+            #[serde(other)]
+            Other,
+        }
+        struct BoxedVisitor;
+        impl<'de> de::Visitor<'de> for BoxedVisitor {
+            type Value = BoxedRep;
+            fn expecting(&self, f: &mut fmt::Formatter) -> fmt::Result {
+                f.write_str("a map with the boxed value under `b`")
+            }
+            fn visit_map<A: de::MapAccess<'de>>(self, mut map: A) -> Result<BoxedRep, A::Error> {
+                let mut b = None;
+                while let Some(field) = map.next_key()? {
+                    match field {
+                        Field::B if b.is_some() => return Err(de::Error::duplicate_field("b")),
+                        Field::B => b = Some(map.next_value()?),
+                        Field::Other => _ = map.next_value::<de::IgnoredAny>()?,
+                    }
+                }
+                let b = b.ok_or_else(|| de::Error::missing_field("b"))?;
+                Ok(BoxedRep { b })
+            }
+        }
+        deserializer.deserialize_struct("BoxedRep", &["b"], BoxedVisitor)
+    }
 }
 
 impl From<Boxed> for BoxedRep {
